@@ -32,6 +32,13 @@ def cases(rng, tier):
             for i in range(128):
                 if op in (0, 1, 2, 4, 5) and rc in list(range(11)) + [16] or i % 16 == 3:
                     out.append("BUILDHDR %x %x %x %x" % (rng.below(65536), op, rc, flagset(i)))
+    # header_buffer::has_flags with a SET of flags: true iff all of them are set (and trivially for the empty set)
+    masks = [0, 0x8000, 0x8400, 0x8180, 0x0030, 0x87B0, 0x0480, 0x8020]
+    for w in (0x0000, 0x8000, 0x8183, 0x8400, 0x0100, 0x87B0, 0x8580, 0x0030, 0xFFBF, 0x7FBF):
+        for m in masks:
+            out.append("PEEKF %s %x" % ((b"\x12\x34" + w.to_bytes(2, "big") + bytes(8)).hex(), m))
+    for m in masks:
+        out.append("PEEKF 1234 %x" % m)
     # state carried by a parsed packet: after parsing any flags word, replacing opcode and response code through the accessors
     # and serialising must give exactly the new codes next to the old flag bits
     for w in [rc | (op << 11) | fl for rc in (0, 3, 5, 15) for op in (0, 2, 5, 15) for fl in (0, 0x8000, 0x07B0, 0x87B0)]:
@@ -115,6 +122,13 @@ def oracle(case, out):
             if p.split()[-1] != expb:
                 return "re-serialised header for word %04x: got %s expected %s" % (w, p.split()[-1], expb)
         return None
+    if t[0] == "PEEKF":
+        d, m = bytes.fromhex(t[1]), int(t[2], 16) & 0x87B0
+        if len(d) < 4:
+            return None if out == "E" else "peek on a %d-byte buffer: %r" % (len(d), out)
+        w = int.from_bytes(d[2:4], "big")
+        want = "1" if (w & m) == m else "0"
+        return None if out == want else "has_flags(%04x) on flags word %04x: got %r, expected %s" % (m, w, out, want)
     if t[0] == "HDRMOD":
         w, op2, rc2 = (int(x, 16) for x in t[1:4])
         if not out.startswith("OK "):
